@@ -410,3 +410,16 @@ m("benign-rename-local-in-verifier", "C18", "core/src/proof/path_proof.rs",
   "        let relevant_path = &key_path[..self.siblings.len()];\n\n        let cur_node = self.terminal.node::<H>();\n\n        let new_root = hash_path::<H>(cur_node, relevant_path, self.siblings.iter().rev().cloned());",
   "        let used_path = &key_path[..self.siblings.len()];\n        let relevant_path = used_path;\n\n        let start_node = self.terminal.node::<H>();\n\n        let new_root = hash_path::<H>(start_node, relevant_path, self.siblings.iter().rev().cloned());",
   None)
+
+m("c14-log-and-continue", "C14", "nomt/src/bitbox/writeout.rs",
+  "    ht_fd.sync_all()?;\n\n    Ok(())",
+  "    if let Err(e) = ht_fd.sync_all() {\n        eprintln!(\"hash-table fsync failed: {e}\");\n    }\n\n    Ok(())",
+  "R1|bitbox::writeout::write_ht|call=std::fs::File::sync_all")
+m("c14-log-and-continue-match", "C14", "nomt/src/store/meta.rs",
+  "        fd.sync_all()?;\n        Ok(())",
+  "        match fd.sync_all() {\n            Ok(()) => {}\n            Err(e) => eprintln!(\"meta fsync failed: {e}\"),\n        }\n        Ok(())",
+  "R1|store::meta::Meta::write|call=std::fs::File::sync_all")
+m("benign-explicit-err-return", "C14", "nomt/src/store/meta.rs",
+  "        fd.sync_all()?;\n        Ok(())",
+  "        if let Err(e) = fd.sync_all() {\n            eprintln!(\"meta fsync failed: {e}\");\n            return Err(e);\n        }\n        Ok(())",
+  None)
